@@ -2,13 +2,13 @@ use crate::{
     channel::Sender,
     computed::suspense::SuspenseContext,
     graph::{
-        untrack_with_diagnostics, AnySource, AnySubscriber, ReactiveNode,
-        Source, SourceSet, Subscriber, SubscriberSet,
+        untrack_with_diagnostics, AnySource, AnySubscriber, Observer,
+        ReactiveNode, Source, SourceSet, Subscriber, SubscriberSet,
     },
     owner::Owner,
 };
 use or_poisoned::OrPoisoned;
-use std::sync::RwLock;
+use std::sync::{RwLock, Weak};
 
 pub(crate) struct ArcAsyncDerivedInner {
     pub owner: Owner,
@@ -56,6 +56,16 @@ impl ReactiveNode for RwLock<ArcAsyncDerivedInner> {
     }
 
     fn update_if_necessary(&self) -> bool {
+        // This is called both by the node's own task, deciding whether to rerun the
+        // async work (it runs the check with itself as the observer), and by
+        // subscribers asking whether this source has changed. Only the former may
+        // consume the dirty state: otherwise a subscriber polled first would clear
+        // it, and the task would never rerun for that change.
+        let own_check = Observer::is(&AnySubscriber(
+            self as *const Self as usize,
+            Weak::<Self>::new(),
+        ));
+
         let mut guard = self.write().or_poisoned();
         let (is_dirty, sources) = (
             guard.state == AsyncDerivedState::Dirty,
@@ -64,7 +74,9 @@ impl ReactiveNode for RwLock<ArcAsyncDerivedInner> {
         );
 
         if is_dirty {
-            guard.state = AsyncDerivedState::Clean;
+            if own_check {
+                guard.state = AsyncDerivedState::Clean;
+            }
             return true;
         }
         drop(guard);
@@ -85,7 +97,7 @@ impl ReactiveNode for RwLock<ArcAsyncDerivedInner> {
         // a second run.
         let mut guard = self.write().or_poisoned();
         let dirty = guard.state == AsyncDerivedState::Dirty;
-        if dirty {
+        if dirty && own_check {
             guard.state = AsyncDerivedState::Clean;
         }
 
